@@ -650,4 +650,301 @@ theorem pre_resume (s : St) (ad : Bool) (j : Nat) (hj : LocV (viewP (.resume j) 
   generalize (s.jobs j).pc = pc at *
   cases pc <;> simp [pk, launched, pcMarker, pcAdopted] at hj ⊢ <;> grind
 
+set_option linter.unusedSimpArgs false
+
+structure PreR (s : St) (j : Nat) (ad : Bool) : Prop where
+  th : cThr s j = 0
+  st : cStart s j = 0
+  rs : cRes s j = 0
+  wk : cWake s j = 0
+  sl : (s.jobs j).sleeping = false
+  la : (s.jobs j).launches = 0 ∨ ((s.jobs j).launches = 1 ∧ launched (s.jobs j).pc = true)
+  ma : (s.jobs j).marker = true → (s.jobs j).launches = 0 ∧ pcMarker (s.jobs j).pc = true
+  ad : ad = true → (s.jobs j).launches = 0 ∧ pcAdopted (s.jobs j).pc = true
+
+/-- `PreR` survives dependency bookkeeping -/
+theorem PreR.bg {s s' : St} {j : Nat} {ad : Bool} (h : PreR s j ad) (hb : Bg s s') : PreR s' j ad := by
+  obtain ⟨f1, f2, f3, f4, f5, f6, f7, f8, f9⟩ := hb.fields j
+  have hw : cW s j = 0 := by simp [cW, cSleep, h.wk, h.sl]
+  rw [hw] at f5
+  simp [cW, cSleep] at f5
+  constructor
+  · rw [f4]; exact h.th
+  · rw [f2]; exact h.st
+  · rw [f3]; exact h.rs
+  · exact f5.1
+  · exact f5.2
+  · rw [f6, f1]; exact h.la
+  · rw [f7, f6, f1]; exact h.ma
+  · rw [f6, f1]; exact h.ad
+
+theorem kind_new (s : St) (j : Nat) (jb : Job) (cbs : List Cb) (k : TK) (hth : cThr s j = 0) (hk : kindOk k jb.pc = true) :
+    ∀ t ∈ (s.put j jb cbs [(k, j)]).threads, t.2 = j → kindOk t.1 ((s.put j jb cbs [(k, j)]).jobs j).pc = true := by
+  intro t ht htj
+  simp at ht
+  rcases ht with ht | ht
+  · exact absurd htj (cThr_zero_kind s j hth t ht)
+  · subst ht; simpa [jobs_put] using hk
+
+theorem kind_none (s : St) (j : Nat) (jb : Job) (cbs : List Cb) (hth : cThr s j = 0) :
+    ∀ t ∈ (s.put j jb cbs []).threads, t.2 = j → kindOk t.1 ((s.put j jb cbs []).jobs j).pc = true := by
+  intro t ht htj
+  simp at ht
+  exact absurd htj (cThr_zero_kind s j hth t ht)
+
+theorem resume_lockExitRun (fl : Flags) (s : St) (j : Nat) (ad : Bool) (hp : (s.jobs j).pc = .lockExitRun) (h : PreR s j ad) :
+    Good j s (s.resume fl j) ad := by
+  have e : s.resume fl j = s.put j { (s.jobs j) with pc := .codeWait } [] [(.code, j)] := by
+    simp only [St.resume, hp]
+  rw [e]
+  refine ⟨put_tr _ j _ _ _ (cbsOf_nil j) (by simp), ?_, kind_new _ _ _ _ _ h.th (by simp [kindOk])⟩
+  obtain ⟨h1, h2, h3, h4, h5, h6, h7, h8⟩ := h
+  rw [view_put]
+  simp [LocV, CtlV, pk, launched, pcMarker, pcAdopted, hp] at *
+  grind
+
+theorem resume_lockEnter (fl : Flags) (s : St) (j : Nat) (ad : Bool) (hp : (s.jobs j).pc = .lockEnter) (h : PreR s j ad) :
+    Good j s (s.resume fl j) ad := by
+  have hb := acquireAll_bg j (s.jobs j).deps.length 0 s
+  have e : s.resume fl j =
+      (match (s.acquireAll j (s.jobs j).deps.length 0).2 with
+       | some d =>
+         let s2 := (s.acquireAll j (s.jobs j).deps.length 0).1.check fl j d
+         s2.put j { (s2.jobs j) with pc := .lockExitAbort } [] [(.lockExit, j)]
+       | none =>
+         let s1 := (s.acquireAll j (s.jobs j).deps.length 0).1
+         s1.put j { (s1.jobs j) with launches := (s1.jobs j).launches + 1, state := .running, pc := .lockExitRun } [] [(.lockExit, j)]) := by
+    simp only [St.resume, hp]
+    rcases s.acquireAll j (s.jobs j).deps.length 0 with ⟨s1, _ | d⟩ <;> rfl
+  rw [e]
+  generalize (s.acquireAll j (s.jobs j).deps.length 0) = r at *
+  obtain ⟨s1, fa⟩ := r
+  simp only at hb ⊢
+  have hp1 : (s1.jobs j).pc = .lockEnter := by rw [(hb.fields j).1, hp]
+  cases fa with
+  | some d =>
+    simp only []
+    have hb2 := check_bg fl s1 j d
+    have h2 := (h.bg hb).bg hb2
+    have hp2 : ((s1.check fl j d).jobs j).pc = .lockEnter := by rw [(hb2.fields j).1, hp1]
+    generalize s1.check fl j d = s2 at *
+    refine ⟨((hb.trans hb2).tr j).trans (put_tr _ j _ _ _ (cbsOf_nil j) (by simp)), ?_, kind_new _ _ _ _ _ h2.th (by simp [kindOk])⟩
+    obtain ⟨h1, h2, h3, h4, h5, h6, h7, h8⟩ := h2
+    rw [view_put]
+    simp [LocV, CtlV, pk, launched, pcMarker, pcAdopted, hp2] at *
+    grind
+  | none =>
+    simp only []
+    have h2 := h.bg hb
+    refine ⟨(hb.tr j).trans (put_tr _ j _ _ _ (cbsOf_nil j) (by simp)), ?_, kind_new _ _ _ _ _ h2.th (by simp [kindOk])⟩
+    obtain ⟨h1, h2, h3, h4, h5, h6, h7, h8⟩ := h2
+    rw [view_put]
+    simp [LocV, CtlV, pk, launched, pcMarker, pcAdopted, hp1] at *
+    grind
+
+
+theorem resume_codeWait (fl : Flags) (s : St) (j : Nat) (ad : Bool) (hp : (s.jobs j).pc = .codeWait) (h : PreR s j ad) :
+    Good j s (s.resume fl j) ad := by
+  have hb := releaseAll_bg j (s.jobs j).held s
+  have e : s.resume fl j =
+      (let s1 := s.releaseAll j (s.jobs j).held
+       (s1.put j { (s1.jobs j) with state := if (s1.jobs j).code = 0 then .done else .error }).finish j) := by
+    simp only [St.resume, hp]
+  rw [e]
+  simp only []
+  have h1 := h.bg hb
+  have hp1 : ((s.releaseAll j (s.jobs j).held).jobs j).pc = .codeWait := by rw [(hb.fields j).1, hp]
+  generalize s.releaseAll j (s.jobs j).held = s1 at *
+  obtain ⟨f, hf⟩ := finish_eq (s1.put j { (s1.jobs j) with state := if (s1.jobs j).code = 0 then .done else .error }) j
+  rw [hf]
+  clear hf
+  refine ⟨(((hb.tr j).trans (put_tr _ j _ _ _ (cbsOf_nil j) (by simp))).trans (failed_tr j _ f)).trans
+    (put_tr _ j _ _ _ (cbsOf_nil j) (by simp)), ?_, ?_⟩
+  · obtain ⟨h1, h2, h3, h4, h5, h6, h7, h8⟩ := h1
+    rw [view_put]
+    simp [LocV, CtlV, pk, launched, pcMarker, pcAdopted, hp1, jobs_put] at *
+    grind
+  · exact kind_new _ _ _ _ _ (by simp [h1.th]) (by simp [kindOk])
+
+theorem eventSet_awake (x : Job) (hx : x.sleeping = false) :
+    (eventSet x).2 = false ∧ (eventSet x).1.sleeping = false ∧ (eventSet x).1.pc = x.pc ∧
+    (eventSet x).1.launches = x.launches ∧ (eventSet x).1.marker = x.marker := by
+  unfold eventSet; grind
+
+theorem resume_lockExitAbort (fl : Flags) (s : St) (j : Nat) (ad : Bool) (hp : (s.jobs j).pc = .lockExitAbort) (h : PreR s j ad) :
+    Good j s (s.resume fl j) ad := by
+  have hb := releaseAll_bg j (s.jobs j).held s
+  have e : s.resume fl j =
+      (let s1 := s.releaseAll j (s.jobs j).held
+       let r := if fl.abortRechecks ∧ (s1.jobs j).unsat = 0 then eventSet { (s1.jobs j) with state := .ready }
+                else ({ (s1.jobs j) with state := .waiting }, false)
+       (s1.put j r.1 (if r.2 then [.wake j] else [])).loopHead j) := by
+    simp only [St.resume, hp]
+  rw [e]
+  simp only []
+  have h1 := h.bg hb
+  have hp1 : ((s.releaseAll j (s.jobs j).held).jobs j).pc = .lockExitAbort := by rw [(hb.fields j).1, hp]
+  generalize s.releaseAll j (s.jobs j).held = s1 at *
+  generalize hr : (if fl.abortRechecks ∧ (s1.jobs j).unsat = 0 then eventSet { (s1.jobs j) with state := .ready }
+                else ({ (s1.jobs j) with state := .waiting }, false)) = r
+  have hrs : r.1.pc = .lockExitAbort ∧ r.1.launches = (s1.jobs j).launches ∧ r.1.marker = (s1.jobs j).marker ∧
+      r.1.sleeping = false ∧ r.2 = false := by
+    rw [← hr]
+    split
+    · obtain ⟨a1, a2, a3, a4, a5⟩ := eventSet_awake { (s1.jobs j) with state := .ready } h1.sl
+      exact ⟨by rw [a3]; exact hp1, a4, a5, a2, a1⟩
+    · simp [hp1, h1.sl]
+  obtain ⟨r1, r2⟩ := r
+  simp only at hrs
+  obtain ⟨q1, q2, q3, q4, q5⟩ := hrs
+  subst q5
+  simp only [Bool.false_eq_true, if_false]
+  obtain ⟨f, jb', ths, he, g1, g2, g3, g4, g5, hc⟩ := loopHead_nf (s1.put j r1 []) j
+  rw [he]
+  clear he
+  refine ⟨(((hb.tr j).trans (put_tr _ j _ _ _ (cbsOf_nil j) (by simp))).trans (failed_tr j _ f)).trans
+    (put_tr _ j _ _ _ (cbsOf_nil j) ?_), ?_, ?_⟩
+  · rcases hc with ⟨-, -, ht, -⟩ | ⟨-, -, ht, -⟩ | ⟨-, -, ht, -⟩ <;> simp [ht]
+  · obtain ⟨h1, h2, h3, h4, h5, h6, h7, h8⟩ := h1
+    rw [view_put]
+    simp [jobs_put] at g1 g2 g3 g4 g5 hc
+    simp [LocV, CtlV, pk, launched, pcMarker, pcAdopted, hp1] at *
+    rcases hc with ⟨hfin, hpp, ht, hs⟩ | ⟨hfin, hpp, ht, hs⟩ | ⟨hfin, hpp, ht, hs⟩ <;> simp [hpp, ht, hs] <;> grind
+  · have hth : cThr (setFailed (s1.put j r1 []) f) j = 0 := by simp [h1.th]
+    rcases hc with ⟨-, hpp, ht, -⟩ | ⟨-, hpp, ht, -⟩ | ⟨-, hpp, ht, -⟩
+    · rw [ht]; exact kind_new _ _ _ _ _ hth (by simp [kindOk, hpp])
+    · rw [ht]; exact kind_new _ _ _ _ _ hth (by simp [kindOk, hpp])
+    · rw [ht]; exact kind_none _ _ _ _ hth
+
+
+theorem resume_doneHandler (fl : Flags) (s : St) (j : Nat) (ad : Bool) (hp : (s.jobs j).pc = .doneHandler) (h : PreR s j ad) :
+    Good j s (s.resume fl j) ad := by
+  have e : ∃ s3, Bg s s3 ∧ s.resume fl j = s3.put j { (s3.jobs j) with pc := .finished (s3.jobs j).state } := by
+    simp only [St.resume, hp]
+    refine ⟨_, ?_, rfl⟩
+    refine bg_misc _ _ ((if s.waiter = .sleeping then [Cb.waiterRun] else []) ++ (s.jobDeps j).map (fun (p : Nat × Nat) => Cb.check p.1 p.2))
+      ?_ ?_ ?_ ?_ ?_ ?_ ?_ ?_
+    · split <;> rfl
+    · split <;> simp
+    · intro cb hcb
+      rcases List.mem_append.mp hcb with h1 | h1
+      · split at h1 <;> simp at h1; subst h1; rfl
+      · obtain ⟨p, -, rfl⟩ := List.mem_map.mp h1; rfl
+    all_goals (split <;> rfl)
+  obtain ⟨s3, hb, e⟩ := e
+  rw [e]
+  have h3 := h.bg hb
+  have hp3 : (s3.jobs j).pc = .doneHandler := by rw [(hb.fields j).1, hp]
+  refine ⟨(hb.tr j).trans (put_tr _ j _ _ _ (cbsOf_nil j) (by simp)), ?_, kind_none _ _ _ _ h3.th⟩
+  obtain ⟨h1, h2, h3, h4, h5, h6, h7, h8⟩ := h3
+  rw [view_put]
+  simp [LocV, CtlV, pk, launched, pcMarker, pcAdopted, hp3] at *
+  grind
+
+theorem resume_good (fl : Flags) (s : St) (j : Nat) (ad : Bool) (hk : pk (s.jobs j).pc = .thr) (h : PreR s j ad) :
+    Good j s (s.resume fl j) ad := by
+  generalize hpc : (s.jobs j).pc = pc at hk
+  cases pc <;> simp [pk] at hk
+  · exact resume_lockEnter fl s j ad hpc h
+  · exact resume_lockExitAbort fl s j ad hpc h
+  · exact resume_lockExitRun fl s j ad hpc h
+  · exact resume_codeWait fl s j ad hpc h
+  · exact resume_doneHandler fl s j ad hpc h
+
+theorem resume_inv (fl : Flags) (s : St) (ad : Nat → Bool) (j : Nat) (h : InvP (some (.resume j)) s ad) :
+    InvP none (s.resume fl j) ad := by
+  obtain ⟨hk, hth, hst, hrs, hwk, hsl, hla, hma, had⟩ := pre_resume s (ad j) j (h.loc j)
+  obtain ⟨g1, g2, g3⟩ := resume_good fl s j (ad j) hk ⟨hth, hst, hrs, hwk, hsl, hla, hma, had⟩
+  exact inv_of_tr (.resume j) j (by simp) s _ ad ad h g1 (fun _ _ => rfl) g2 g3
+
+
+theorem inv_of_bg {s s' : St} {ad : Nat → Bool} (h : InvP none s ad) (hb : Bg s s') : InvP none s' ad := by
+  constructor
+  · intro i; have := h.loc i; simp only [] at this ⊢; rw [hb.view i]; exact this
+  · intro i hi; rw [hb.n] at hi; rw [(hb.fields i).1, hb.eff]; exact h.fresh i hi
+  · intro i hi; rw [hb.eff] at hi; rw [(hb.fields i).1]; exact h.dup i hi
+  · intro t ht; rw [hb.threads] at ht; rw [(hb.fields t.2).1]; exact h.kind t ht
+
+/-- a callback that is no continuation of a job -/
+def plainCb : Cb → Bool
+  | .start _ => false
+  | .wake _ => false
+  | .resume _ => false
+  | _ => true
+
+theorem viewP_plain (cb : Cb) (h : plainCb cb = true) (s : St) (i : Nat) : viewP cb s i = view s i := by
+  cases cb <;> simp [plainCb] at h <;> simp [viewP]
+
+theorem invP_plain {cb : Cb} (hc : plainCb cb = true) {s : St} {ad : Nat → Bool} (h : InvP (some cb) s ad) : InvP none s ad := by
+  refine ⟨?_, h.fresh, h.dup, h.kind⟩
+  intro i; have := h.loc i; simp only [viewP_plain cb hc] at this; exact this
+
+theorem inv_register (fl : Flags) {s : St} {ad : Nat → Bool} (j : Nat) (h : InvP none s ad) : InvP none (s.register fl j) ad := by
+  have hj : (s.register fl j).jobs = s.jobs ∧ (s.register fl j).ready = s.ready ∧ (s.register fl j).threads = s.threads ∧
+      (s.register fl j).n = s.n ∧ (s.register fl j).eff = s.eff := by
+    unfold St.register; simp only []; split <;> (try split) <;> (try split) <;> simp
+  obtain ⟨h1, h2, h3, h4, h5⟩ := hj
+  constructor
+  · intro i; have := h.loc i; simp only [view, cStart, cRes, cW, cWake, cSleep, cThr, h1, h2, h3] at this ⊢; exact this
+  · intro i hi; rw [h4] at hi; rw [h1, h5]; exact h.fresh i hi
+  · intro i hi; rw [h5] at hi; rw [h1]; exact h.dup i hi
+  · intro t ht; rw [h3] at ht; rw [h1]; exact h.kind t ht
+
+theorem runCb_plain_inv (fl : Flags) (cb : Cb) (hc : plainCb cb = true) {s : St} {ad : Nat → Bool} (h : InvP none s ad) :
+    InvP none (s.runCb fl cb) ad := by
+  cases cb <;> simp [plainCb] at hc
+  · exact inv_register fl _ h
+  · exact inv_of_bg h (check_bg fl s _ _)
+  · simp only [St.runCb]
+    split
+    · split
+      · exact inv_of_bg h (check_bg fl s _ _)
+      · exact h
+    · exact inv_of_bg h (check_bg fl s _ _)
+  · simp only [St.runCb, St.waiterRun]
+    split <;> exact inv_of_bg h (bg_of_jobs_eq _ _ rfl rfl rfl rfl rfl rfl rfl)
+
+theorem runCbA_plain {D : Type} (fl : Flags) (hk : Hooks D) (a : StA D) (cb : Cb) (hc : plainCb cb = true) :
+    runCbA fl hk a cb = { a with s := a.s.runCb fl cb } := by
+  cases cb <;> simp [plainCb] at hc <;> rfl
+
+theorem runCbA_inv {D : Type} (fl : Flags) (hk : Hooks D) (a : StA D) (cb : Cb) (h : InvP (some cb) a.s a.adopted) :
+    InvP none (runCbA fl hk a cb).s (runCbA fl hk a cb).adopted := by
+  by_cases hc : plainCb cb = true
+  · rw [runCbA_plain fl hk a cb hc]; exact runCb_plain_inv fl cb hc (invP_plain hc h)
+  · cases cb <;> simp [plainCb] at hc
+    · exact start_inv fl hk a _ h
+    · simpa [runCbA] using wake_inv fl a.s a.adopted _ h
+    · have := resume_inv fl a.s a.adopted _ h
+      simp only [runCbA]
+      split <;> exact this
+
+
+/-! ### popping the head of the queue, steps, events -/
+
+theorem pop_inv {s : St} {ad : Nat → Bool} {cb : Cb} {rest : List Cb} (h : InvP none s ad) (hr : s.ready = cb :: rest) :
+    InvP (some cb) { s with ready := rest } ad := by
+  refine ⟨?_, h.fresh, h.dup, h.kind⟩
+  intro i
+  have := h.loc i
+  simp only [viewP, view, cStart, cRes, cW, cWake, cSleep, cThr, hr, List.count_cons] at this ⊢
+  simp only [beq_iff_eq] at this
+  have e4 : ∀ a b c : Nat, a + b + c = a + c + b := by intros; omega
+  rw [e4] at this
+  exact this
+
+theorem stepA_inv {D : Type} (fl : Flags) (hk : Hooks D) (a : StA D) (h : InvP none a.s a.adopted) :
+    InvP none (stepA fl hk a).s (stepA fl hk a).adopted := by
+  unfold stepA
+  split
+  · exact h
+  · rename_i cb rest hr
+    exact runCbA_inv fl hk _ cb (pop_inv h hr)
+
+theorem stepsA_inv {D : Type} (fl : Flags) (hk : Hooks D) (k : Nat) : ∀ (a : StA D), InvP none a.s a.adopted →
+    InvP none (stepsA fl hk a k).s (stepsA fl hk a k).adopted := by
+  induction k with
+  | zero => intro a h; exact h
+  | succ k ih => intro a h; exact ih _ (stepA_inv fl hk a h)
+
 end XpmVerif.Restart
